@@ -631,6 +631,9 @@ pub enum ReplyKind {
     OkFullyFilled,
     /// rejected by the venue
     Err,
+    /// answers Ok but names an instrument the manager's map does not know (the manager filters
+    /// such a response by design)
+    OkUnknownInstrument,
 }
 
 #[derive(Debug, Clone, Copy, PartialEq, Eq)]
@@ -719,10 +722,14 @@ impl ExecutionClient for ScriptClient {
             cid: request.key.cid.clone(),
         };
         let kind = self.wait(&call).await;
+        let mut key = key;
+        if kind == ReplyKind::OkUnknownInstrument {
+            key.instrument = InstrumentNameExchange::from("NOT-CONFIGURED");
+        }
         UnindexedOrderResponseCancel {
             key,
             state: match kind {
-                ReplyKind::Ok | ReplyKind::OkFullyFilled => Ok(Cancelled { id: OrderId::new(format!("x-{}", call.cid.0)), time_exchange: t(1) }),
+                ReplyKind::Ok | ReplyKind::OkFullyFilled | ReplyKind::OkUnknownInstrument => Ok(Cancelled { id: OrderId::new(format!("x-{}", call.cid.0)), time_exchange: t(1) }),
                 ReplyKind::Err => Err(UnindexedOrderError::Rejected(ApiError::OrderAlreadyCancelled)),
             },
         }
@@ -747,6 +754,10 @@ impl ExecutionClient for ScriptClient {
         };
         let state = request.state.clone();
         let kind = self.wait(&call).await;
+        let mut key = key;
+        if kind == ReplyKind::OkUnknownInstrument {
+            key.instrument = InstrumentNameExchange::from("NOT-CONFIGURED");
+        }
         Order {
             key,
             side: state.side,
@@ -755,7 +766,7 @@ impl ExecutionClient for ScriptClient {
             kind: state.kind,
             time_in_force: state.time_in_force,
             state: match kind {
-                ReplyKind::Ok => Ok(Open { id: OrderId::new(format!("x-{}", call.cid.0)), time_exchange: t(1), filled_quantity: Decimal::ZERO }),
+                ReplyKind::Ok | ReplyKind::OkUnknownInstrument => Ok(Open { id: OrderId::new(format!("x-{}", call.cid.0)), time_exchange: t(1), filled_quantity: Decimal::ZERO }),
                 ReplyKind::OkFullyFilled => Ok(Open { id: OrderId::new(format!("x-{}", call.cid.0)), time_exchange: t(1), filled_quantity: state.quantity }),
                 ReplyKind::Err => Err(UnindexedOrderError::Rejected(ApiError::OrderRejected("scripted".into()))),
             },
